@@ -1,6 +1,7 @@
 mod c04;
 mod c05;
 mod c08;
+mod c12;
 mod sexp;
 mod slots;
 mod lexutil;
@@ -25,6 +26,7 @@ fn main() {
         "c04" => c04::run(&tier, seed),
         "c05" => c05::run(&tier, seed),
         "c08" => c08::run(&tier, seed),
+        "c12" => c12::run(&tier, seed),
         "pipe" => pipe::run(&tier, seed),
         "slots" => slots::run(&tier, seed),
         "optable" => {
